@@ -47,9 +47,11 @@ Definition rb_add (st : rb) (sq : Z) : rb :=
     let diff := sub16 sq (rb_highest st) in
     if diff =? 0 then st
     else if diff <? 32768 then
-      (* for i := highestAdded+1; i != seq; i++ { packets[i%size] = nil } *)
-      let occ1 := fold_left (fun o k => delset (add16 (rb_highest st) (Z.of_nat k + 1) mod size) o)
-                            (seq 0 (Z.to_nat (diff - 1))) (rb_occ st) in
+      (* for i := highestAdded+1; i != seq; i++ { packets[i%size] = nil }: pointwise closed form of the
+         loop (size divides 2^16, NewRTPBuffer): slot q is cleared iff q = (highest + k) mod size for
+         some 1 <= k <= diff - 1 *)
+      let occ1 := if diff =? 1 then rb_occ st
+                  else filter (fun q => negb ((q - rb_highest st - 1) mod size <? diff - 1)) (rb_occ st) in
       {| rb_size := size; rb_started := true; rb_highest := sq; rb_occ := addset (sq mod size) occ1 |}
     else if sub16 (rb_highest st) sq >=? size then st  (* older than the window: released, not stored *)
     else {| rb_size := size; rb_started := true; rb_highest := rb_highest st;
@@ -114,10 +116,13 @@ Definition am_get (st : am) (s : Z) : Z :=
 Definition am_norm (cap b e : Z) (times : list (Z * Z)) : am :=
   {| am_cap := cap; am_begin := b; am_end := e;
      am_times := filter (fun p => (b <=? fst p) && (fst p <? e)) times |}.
+(* the same when begin is unchanged and every key is below e *)
+Definition am_keep (cap b e : Z) (times : list (Z * Z)) : am :=
+  {| am_cap := cap; am_begin := b; am_end := e; am_times := times |}.
 Definition am_add (st : am) (s t : Z) : am :=
   let b := am_begin st in let e := am_end st in
   if am_cap st =? 0 then am_norm 128 s (s + 1) [(s, t)]
-  else if (b <=? s) && (s <? e) then am_norm (am_cap st) b e (aset s t (am_times st))
+  else if (b <=? s) && (s <? e) then am_keep (am_cap st) b e (aset s t (am_times st))
   else if s <? b then
     let n := e - s in
     if n >? 32768 then st
@@ -126,8 +131,9 @@ Definition am_add (st : am) (s t : Z) : am :=
     let ne := s + 1 in
     if ne >=? e + 32768 then am_norm (am_cap st) s ne [(s, t)]
     else
-      let b' := if b <? ne - 32768 then ne - 32768 else b in
-      am_norm (am_adjust (am_cap st) (ne - b')) b' ne (aset s t (am_times st)).
+      if b <? ne - 32768 then
+        let b' := ne - 32768 in am_norm (am_adjust (am_cap st) (ne - b')) b' ne (aset s t (am_times st))
+      else am_keep (am_adjust (am_cap st) (ne - b)) b ne (aset s t (am_times st)).
 Definition am_erase (st : am) (s : Z) : am :=
   if s <? am_begin st then st
   else if s >=? am_end st then am_norm (am_cap st) (am_end st) (am_end st) []
